@@ -85,12 +85,11 @@ impl Tok {
 // ------------------------------------------------------------------------------------------------
 // baton-passing scheduler over real threads
 // ------------------------------------------------------------------------------------------------
-const LOCK_POINTS: [u32; 3] = [1, 11, 34];
-const UNLOCK_POINTS: [u32; 4] = [4, 14, 16, 35];
 
 #[derive(Default)]
 struct ThRec {
     parked: Option<u32>,
+    lock_target: usize,       // address of the mutex the thread is about to lock (0: not at a lock point)
     finished: bool,
     held: Vec<TokInfo>,
     cached: [Option<TokInfo>; 2],
@@ -153,7 +152,6 @@ struct RunState {
     turn: Option<usize>,
     started: usize,
     go: bool,
-    owner: Option<usize>,
     last: Option<usize>,
     chooser: Chooser,
     out: RunOut,
@@ -223,14 +221,16 @@ impl RunState {
         for (t, r) in self.th.iter().enumerate() {
             if r.finished { continue; }
             all_done = false;
-            if let Some(p) = r.parked {
-                if LOCK_POINTS.contains(&p) && self.owner.is_some() { continue; }
+            if r.parked.is_some() {
+                // a thread about to lock can run iff the real mutex is free right now (every other
+                // thread is parked, so this cannot change before the thread is resumed)
+                if r.lock_target != 0 && !unsafe { verif_sched::mutex_is_free(r.lock_target) } { continue; }
                 en.push(t);
             }
         }
         if all_done { return None; }
         if en.is_empty() {
-            self.out.failures.push(format!("deadlock: no thread can run (token_chain_mutex held by thread {:?})", self.owner));
+            self.out.failures.push("deadlock: every unfinished thread is waiting for token_chain_mutex".to_string());
             self.stuck = true;
             return None;
         }
@@ -241,9 +241,6 @@ impl RunState {
         }
         let mut t = self.chooser.choose(self.out.steps, &en, self.last);
         if !en.contains(&t) { t = en[0]; }
-        let p = self.th[t].parked.unwrap_or(0);
-        if LOCK_POINTS.contains(&p) { self.owner = Some(t); }
-        if UNLOCK_POINTS.contains(&p) { self.owner = None; }
         self.out.sched.push(t);
         self.out.enabled.push(en);
         self.out.steps += 1;
@@ -268,8 +265,8 @@ fn wait_turn(ctl: &Ctl, me: usize) {
 fn arrive(ctl: &Ctl, me: usize, id: Option<u32>) {
     let mut g = ctl.m.lock().unwrap_or_else(|e| e.into_inner());
     match id {
-        Some(p) => g.th[me].parked = Some(p),
-        None => { g.th[me].finished = true; g.th[me].parked = None; }
+        Some(p) => { g.th[me].parked = Some(p); g.th[me].lock_target = verif_sched::lock_target(); }
+        None => { g.th[me].finished = true; g.th[me].parked = None; g.th[me].lock_target = 0; }
     }
     if !g.go {
         // start-up: report and wait for the first grant
@@ -430,7 +427,7 @@ fn run_conc(level: u8, progs: &[Vec<Op>], chooser: Chooser) -> RunOut {
     let ctl = Arc::new(Ctl {
         m: Mutex::new(RunState {
             level, th: (0..n).map(|_| ThRec::default()).collect(), handles: vec![None; n], turn: None, started: 0, go: false,
-            owner: None, last: None, chooser, out: RunOut::default(), done: false, stuck: false, abort: false, progress: 0, vm: vm.clone(),
+            last: None, chooser, out: RunOut::default(), done: false, stuck: false, abort: false, progress: 0, vm: vm.clone(),
         }),
         cv: Condvar::new(),
     });
